@@ -48,6 +48,12 @@ func runC09(e *Env) {
 	e.S.Floor("C09.errzero", 5)
 	e.S.Floor("C09.wrap", 5)
 	e.S.Floor("C09.limit", 2)
+	// "the date parser" is every path by which a text becomes a date: besides DefaultParser (above) and UnmarshalText
+	// (which hands its bytes whole to the Parser: C01/C18 delegation), Scan — it takes a time.Time and nothing else;
+	// a text-taking function added beside them delegates unchanged or is undecided
+	ruleScanPath(e, "C09.paths")
+	ruleLateEntriesDelegate(e, "C09.paths", "date")
+	e.S.Floor("C09.paths", 2)
 }
 
 // ---------------------------------------------------------------------------
